@@ -1681,7 +1681,7 @@ func (r *Run) nonNilAt(v ssa.Value, at ssa.Instruction) (bool, string) {
 			continue
 		}
 		if len(side.Preds) == 1 && (side == at.Block() || side.Dominates(at.Block())) {
-			if tested != v && writeBetween(tested, side, at) {
+			if tested != v && r.writeBetween(tested, side, at) {
 				continue
 			}
 			return true, "dominated by a nil test of the same value at " + r.P.pos(iff.Cond.Pos())
@@ -1710,6 +1710,50 @@ func (r *Run) nonNilAt(v ssa.Value, at ssa.Instruction) (bool, string) {
 		}
 	}
 	return false, ""
+}
+
+var fieldWriterMemo = map[*Prog]map[*types.Var]map[*ssa.Function]bool{}
+var reachMemo = map[*Prog]map[*ssa.Function]map[*ssa.Function]bool{}
+
+// callMayWriteField: some module function the call at site can reach stores into field f.
+func (r *Run) callMayWriteField(caller *ssa.Function, site ssa.CallInstruction, f *types.Var) bool {
+	if fieldWriterMemo[r.P] == nil {
+		fieldWriterMemo[r.P] = map[*types.Var]map[*ssa.Function]bool{}
+		reachMemo[r.P] = map[*ssa.Function]map[*ssa.Function]bool{}
+	}
+	writers, ok := fieldWriterMemo[r.P][f]
+	if !ok {
+		writers = map[*ssa.Function]bool{}
+		for _, g := range r.P.Funcs {
+			for _, ins := range allInstrs(g) {
+				if st, ok := ins.(*ssa.Store); ok {
+					if fb, ok := st.Addr.(*ssa.FieldAddr); ok && fieldOf(fb) == f {
+						writers[g] = true
+					}
+				}
+			}
+		}
+		fieldWriterMemo[r.P][f] = writers
+	}
+	if len(writers) == 0 {
+		return false
+	}
+	for _, e := range r.P.CG.Out[caller] {
+		if e.Site != site {
+			continue
+		}
+		reach, ok := reachMemo[r.P][e.Callee]
+		if !ok {
+			reach = r.P.CG.ReachableAll([]*ssa.Function{e.Callee})
+			reachMemo[r.P][e.Callee] = reach
+		}
+		for g := range writers {
+			if reach[g] {
+				return true
+			}
+		}
+	}
+	return false
 }
 
 // truthSides: the blocks entered only when the boolean b is true — the true successor of
@@ -1742,7 +1786,7 @@ func truthSides(b ssa.Value) []*ssa.BasicBlock {
 // writeBetween: for a re-read (second lookup of the same map/key, second load of the same
 // field or cell), is there a write to that map/field/cell on a path from the tested side to
 // the use?
-func writeBetween(tested ssa.Value, side *ssa.BasicBlock, at ssa.Instruction) bool {
+func (r *Run) writeBetween(tested ssa.Value, side *ssa.BasicBlock, at ssa.Instruction) bool {
 	fn := at.Parent()
 	reachFromSide := blockReach(side)
 	reachFromSide[side] = true
@@ -1767,22 +1811,63 @@ func writeBetween(tested ssa.Value, side *ssa.BasicBlock, at ssa.Instruction) bo
 				}
 				return st.Addr == t.X
 			}
+			// a call in between whose callee (or anything it reaches) stores into the same
+			// field: `if req.Name != nil { normalise(req); use(*req.Name) }`
+			if ci, ok := ins.(ssa.CallInstruction); ok {
+				if fa, ok := t.X.(*ssa.FieldAddr); ok && fieldOf(fa) != nil {
+					return r.callMayWriteField(fn, ci, fieldOf(fa))
+				}
+			}
 		}
 		return false
 	}
+	// a write counts when it can happen after the test and before the use: it is reachable
+	// from the tested side and the use is reachable from it without re-evaluating the tested
+	// value (inside a loop a write that comes after the use reaches it again only through the
+	// next iteration, which — when the tested value is loaded in the loop — tests anew)
+	var tb *ssa.BasicBlock
+	tIdx := -1
+	if ti, ok := tested.(ssa.Instruction); ok && ti.Block() != nil {
+		tb, tIdx = ti.Block(), instrIdx(ti)
+	}
+	reachAvoiding := func(from *ssa.BasicBlock) bool {
+		seen := map[*ssa.BasicBlock]bool{}
+		work := append([]*ssa.BasicBlock{}, from.Succs...)
+		for len(work) > 0 {
+			x := work[len(work)-1]
+			work = work[:len(work)-1]
+			if seen[x] || x == tb {
+				continue
+			}
+			seen[x] = true
+			if x == at.Block() {
+				return true
+			}
+			work = append(work, x.Succs...)
+		}
+		return false
+	}
+	atIdx := instrIdx(at)
 	for _, b := range fn.Blocks {
 		if !reachFromSide[b] {
 			continue
 		}
-		reachesUse := b == at.Block() || blockReach(b)[at.Block()]
-		if !reachesUse {
-			continue
-		}
+		var later *bool
 		for i, ins := range b.Instrs {
-			if b == at.Block() && i >= instrIdx(at) && !blockInCycle(b) {
-				break
+			if ins == at || !isWrite(ins) {
+				continue
 			}
-			if isWrite(ins) {
+			if b == tb && i < tIdx {
+				continue // before the tested value is read in this block: the test sees it
+			}
+			if b == at.Block() && i < atIdx {
+				return true
+			}
+			if later == nil {
+				v := reachAvoiding(b)
+				later = &v
+			}
+			if *later {
 				return true
 			}
 		}
